@@ -333,6 +333,49 @@ def rebuild_case(rng):
                 nontrivial=bool(meta["nodd"] == 3), op="network", triggers=[])
 
 
+def matmul_chain_case(rng):
+    """vector · matrix · vector through the `@` entry point in both bracketings, against tensordot"""
+    import symmray as sr
+
+    sym = rng.choice(gen.SYMS)
+    static = rng.random() < 0.7
+    dtype = rng.choice(["float64", "complex128"])
+    i1 = gen.rand_index(rng, sym, max_charges=2, max_size=2)
+    i2 = gen.rand_index(rng, sym, max_charges=2, max_size=2)
+    l = rng.sample(range(1, 40), 3)
+    v = gen.rand_array(rng, sym, indices=[i1], fermi=True, static=static, dtype=dtype, keep=1.0, label=l[0],
+                       parity=rng.choice([1, 1, 0]), pending=rng.random() < 0.3)
+    M = gen.rand_array(rng, sym, indices=[i1.conj(), i2], fermi=True, static=static, dtype=dtype, keep=1.0, label=l[1],
+                       parity=rng.choice([1, 0, None]), pending=rng.random() < 0.3)
+    w = gen.rand_array(rng, sym, indices=[i2.conj()], fermi=True, static=static, dtype=dtype, keep=1.0, label=l[2],
+                       parity=rng.choice([1, 0, None]))
+    env = {"T0": v, "T1": M, "T2": w}
+    steps = [{"out": ["a1"], "op": "tensordot", "in": ["T0", "T1"], "params": {"axes": [[0], [0]], "mode": "blockwise"}},
+             {"out": ["a2"], "op": "tensordot", "in": ["a1", "T2"], "params": {"axes": [[0], [0]], "mode": "blockwise"}},
+             {"out": ["b1"], "op": "matmul", "in": ["T0", "T1"], "params": {}},
+             {"out": ["b2"], "op": "matmul", "in": ["b1", "T2"], "params": {}},
+             {"out": ["c1"], "op": "matmul", "in": ["T1", "T2"], "params": {}},
+             {"out": ["c2"], "op": "matmul", "in": ["T0", "c1"], "params": {}}]
+    res, env2 = impl.run_prog(env, steps)
+    orc = None
+    if not all("ok" in r for r in res):
+        if any(v_.parity for v_ in (v, M, w)) or True:
+            orc = "a route raised: " + str([r.get("msg") for r in res if "raise" in r][:2])
+    else:
+        ref = env2["a2"]
+        ref = complex(ref.phase_sync().blocks.get((), 0.0)) if hasattr(ref, "blocks") else complex(ref)
+        for nm in ("b2", "c2"):
+            got = env2[nm]
+            got = complex(got.phase_sync().blocks.get((), 0.0)) if hasattr(got, "blocks") else complex(got)
+            if got != ref:
+                orc = f"(v @ M) @ w / v @ (M @ w) [{nm}] = {got} differs from the tensordot route {ref}"
+                break
+    meta = dict(sym=sym, static=static, shape="matmul-chain", pending=bool(v.phases or M.phases),
+                nodd=sum(int(t.parity) for t in (v, M, w)))
+    return dict(case=_mk_case(env, steps), impl=stream.strip_py(res), oracle=orc, meta=meta,
+                nontrivial=bool(meta["nodd"] >= 2), op="network", triggers=[])
+
+
 def gen_cases(seed, chunk, n, tier):
     rng = random.Random(seed * 7919 + chunk * 104729 + 4)
     out = [rebuild_case(rng) for _ in range(max(1, n // 12))]
@@ -368,6 +411,8 @@ def gen_cases(seed, chunk, n, tier):
         meta = dict(sym=sym, static=static, shape=shape, pending=pending, nodd=sum(int(t.parity) for t in tens))
         out.append(dict(case=_mk_case(env, steps), impl=stream.strip_py(res), oracle=orc, meta=meta,
                         nontrivial=bool(meta["nodd"] >= 2), op="network", triggers=[]))
+    for _ in range(max(1, n // 12)):
+        out.append(matmul_chain_case(rng))
     for _ in range(n):
         sym = rng.choice(gen.SYMS)
         static = rng.random() < 0.7
